@@ -76,6 +76,7 @@ type P struct {
 	RsExtra  int    // Deployment: 0 none | 1 an owned ReplicaSet scaled to 0 | 2 a foreign ReplicaSet | 3 both
 	Single   bool   // status reports a single revision (Deployment: Rs == 1)
 	Extra    bool   // additional unrelated fields (finalizers, minReadySeconds, ...)
+	Unready  bool   // CloneSet: one pod of the (single) revision is not ready: readiness must not matter
 }
 
 // Ro is the abstract view of one Rollout of the namespace list, in API list order.
@@ -116,6 +117,7 @@ type Input struct {
 	RsExtra  int    `json:"rsExtra"`
 	Single   bool   `json:"single"`
 	Extra    bool   `json:"extra"`
+	Unready  bool   `json:"unready"`
 	Cur      Proj   `json:"cur"`
 }
 
@@ -445,8 +447,15 @@ func buildObject(p P, k kindInfo, ros []Ro, old bool) M {
 		case "typeonly":
 			spec["updateStrategy"] = M{"type": "InPlaceIfPossible"}
 		}
-		status = M{"replicas": n, "updatedReplicas": upd, "readyReplicas": n, "availableReplicas": n, "observedGeneration": int64(2),
-			"currentRevision": "demo-r1", "updateRevision": "demo-r1", "updatedReadyReplicas": upd}
+		rdy, updRdy := n, upd
+		if p.Unready && n > 0 {
+			rdy = n - 1
+			if updRdy > 0 {
+				updRdy--
+			}
+		}
+		status = M{"replicas": n, "updatedReplicas": upd, "readyReplicas": rdy, "availableReplicas": rdy, "observedGeneration": int64(2),
+			"currentRevision": "demo-r1", "updateRevision": "demo-r1", "updatedReadyReplicas": updRdy}
 	case "DaemonSet":
 		switch p.Strategy {
 		case "rolling":
@@ -581,7 +590,7 @@ func (g *gen) emit(p P) {
 	oldM, newM := buildObject(p, k, ros, true), buildObject(p, k, ros, false)
 	in := Input{Fam: p.Fam, Kind: p.Kind, Labels: p.Labels, Annos: p.Annos, Replicas: p.Replicas, OldID: p.OldID, NewID: p.NewID, Tmpl: p.Tmpl,
 		Marker: p.Marker, Paused: p.Paused, Strategy: p.Strategy, Style: p.Style, Roset: p.Roset, Ros: ros, Rs: p.Rs, RsExtra: p.RsExtra,
-		Single: p.Single, Extra: p.Extra}
+		Single: p.Single, Extra: p.Extra, Unready: p.Unready}
 	newRaw, err := json.Marshal(newM)
 	must(err)
 	newDec := decode(newRaw)
@@ -834,7 +843,7 @@ func main() {
 							cycle(ci, kShape(3, 8), len(shapes), func(si int) {
 								sh := shapes[si]
 								g.emit(P{Fam: "A", Kind: "CloneSet", Labels: sh.labels, Annos: sh.annos, Replicas: rep, OldID: ids[0], NewID: ids[1], Tmpl: t,
-									Marker: sh.marker, Strategy: sh.strategy, Style: "none", Roset: ro, Rs: 0, Single: single})
+									Marker: sh.marker, Strategy: sh.strategy, Style: "none", Roset: ro, Rs: 0, Single: single, Unready: (ci/2)%2 == 1})
 							})
 							ci++
 						}
